@@ -129,25 +129,31 @@ where
             }
 
             match handle.as_mut().poll_next(cx) {
-                Poll::Ready(Some(sock)) => match sock {
-                    Socket::Client((si, st)) => {
-                        stream.as_mut().insert(*next_id, st);
-                        sink.as_mut().insert(*next_id, si);
+                Poll::Ready(Some(sock)) => {
+                    match sock {
+                        Socket::Client((si, st)) => {
+                            stream.as_mut().insert(*next_id, st);
+                            sink.as_mut().insert(*next_id, si);
 
-                        *next_id += 1;
-                    }
-                    Socket::Server((si, st)) => {
-                        if server.is_some() {
-                            let error_payload = ErrorPayload {
-                                code: REPLIER_ALREADY_BOUND,
-                                message: "A replier already exists for this topic".into(),
-                            };
-                            *buffered_err = Some((Some(error_payload), si));
-                        } else {
-                            let _ = server.insert((si, st));
+                            *next_id += 1;
+                        }
+                        Socket::Server((si, st)) => {
+                            if server.is_some() {
+                                let error_payload = ErrorPayload {
+                                    code: REPLIER_ALREADY_BOUND,
+                                    message: "A replier already exists for this topic".into(),
+                                };
+                                *buffered_err = Some((Some(error_payload), si));
+                            } else {
+                                let _ = server.insert((si, st));
+                            }
                         }
                     }
-                },
+
+                    // The channel only wakes us once it has answered Pending, so it must be
+                    // polled again before this future may park.
+                    continue;
+                }
                 // If handle is terminated, the stream is dead
                 Poll::Ready(None) => {
                     ready!(sink.as_mut().poll_flush(cx)).unwrap();
